@@ -15,6 +15,7 @@ RULE = ("labelled data (2-4 classes 0..k-1, d=2 (3 in thorough), 40-200 samples,
         "learning scaling recomputed independently; class == argmax of the per-class estimators at the scaled sample; exactly the "
         "out-of-range samples are missing; summary numbers; stability of earlier results. distinct = digest(configuration, call "
         "sequence); non-trivial = >=3 calls incl. >=1 with removed samples")
+RULE += (" " + 'In a third of the cases the learning range is given explicitly (data_range wider than the data); evaluated sets include samples exactly ON the learned range (learning samples attaining a minimum/maximum, corners).')
 REQUIRED = ["argmax_class", "removed_samples_exact", "entirely_outside_raises", "summary_consistent", "earlier_results_stable",
             "testset_prefix_stable", "unlabelled_not_classified", "evaluate_consistent"]
 MIN_NONTRIVIAL = {"quick": 30, "thorough": 500}
